@@ -278,7 +278,8 @@ def with_wrapper_ctors(model, b, read):
     t = value_ctors(b, read, ["new_val_ref_with_no_source", "new_val_ref_with_source"])
     head = "pub mod value {\n    use super::*;\n"
     if not t.startswith(head) or model.count(head) != 1:
-        raise Exception("with_wrapper_ctors: unexpected module text")
+        from common import Undecided
+        raise Undecided("with_wrapper_ctors: the unit's `pub mod value` was not found as expected")
     inner = t[len(head):t.rstrip().rfind("}")]
     return model.replace(head, head + inner)
 
